@@ -32,7 +32,9 @@ Definition conv_c05 : conv :=
        | PBool b => bool_ser b
        | _ => []
        end)
-    (fun _ _ => false) (fun _ => ([], false)) (fun _ => None).
+    (fun _ _ => false)
+    (fun p => match p with PStr _ => (EventGen.XS_STRING, true) | _ => ([], false) end)   (* DataType.from_value(str) = xs:string *)
+    (fun _ => None).
 
 Definition ok_c05 (p : prim) : bool :=
   match p with
